@@ -39,6 +39,7 @@ CONSTANTS
   AllowCliClose,  \* clients may disconnect
   MaxHops,        \* redirects per fragment
   MaxBurst,       \* requests a client may have written but the proxy not yet read
+  CanonKinds,     \* TRUE: nodes use "mix"/"nil" only where they differ from "ok" (model checking); FALSE: any (traces)
   PoolAny         \* TRUE: MsgPool.Get may return any pooled object; FALSE: a canonical one (trace validation)
 
 VARIABLES
@@ -69,7 +70,7 @@ VARIABLES
   sched     \* environment choices so far (for replay)
 
 vars == <<nsent, cbuf, cclosed, copen, closing, inq, msg, frag, outfq, infq, sopen, sgen, tasks, ttree,
-          expired, bq, b2p, bclosed, nclose, hops, phase, ready, woke, seen, halted, mon, sched>>
+          expired, bq, b2p, bclosed, nclose, hops, phase, ready, woke, seen, halted, mon, out, sched>>
 
 \* sched is written, never read: the exhaustive runs hide it (VIEW) so that behaviours that differ only in
 \* the order of commuting environment choices are explored once
@@ -157,9 +158,9 @@ ValsFor(kind, len) == [x \in 1..len |-> IF kind = "nil" \/ (kind = "mix" /\ x % 
 
 \* self-answered commands at the head of a node's queue (ASKING) are answered in order
 RECURSIVE AutoAnswer(_, _)
-AutoAnswer(q, out) == IF q # <<>> /\ Head(q) = Asking
-                      THEN AutoAnswer(Tail(q), Append(out, [fid |-> Asking, kind |-> "ok", cls |-> "", to |-> "", vals |-> <<>>, num |-> 0]))
-                      ELSE <<q, out>>
+AutoAnswer(q, acc) == IF q # <<>> /\ Head(q) = Asking
+                      THEN AutoAnswer(Tail(q), Append(acc, [fid |-> Asking, kind |-> "ok", cls |-> "", to |-> "", vals |-> <<>>, num |-> 0]))
+                      ELSE <<q, acc>>
 
 BkAnswer(n, a) ==
   LET kind == a[1] cls == a[2] to == a[3] IN
@@ -173,8 +174,7 @@ BkAnswer(n, a) ==
          rest == AutoAnswer(Tail(bq[n]), <<>>)
      IN
      /\ (kind \in {"moved", "ask"}) => (to # n /\ h < MaxHops)
-     /\ (kind = "mix") => req.k = "mget"
-     /\ (kind = "nil") => req.k \in {"get", "mget", "del"}
+     /\ CanonKinds => ((kind = "mix") => req.k = "mget") /\ ((kind = "nil") => req.k \in {"get", "mget", "del"})
      /\ bq' = [bq EXCEPT ![n] = rest[1]]
      /\ b2p' = [b2p EXCEPT ![n] = Append(@, [fid |-> f, kind |-> kind, cls |-> cls, to |-> to, vals |-> vals, num |-> num]) \o rest[2]]
      /\ hops' = IF kind \in {"moved", "ask"} THEN (f :> (h + 1)) @@ hops ELSE hops
@@ -244,6 +244,9 @@ SetHeap(h) ==
   /\ mon' = Fold(mon, h.evs) /\ out' = out \o h.evs
 Emit(h, e) == [h EXCEPT !.evs = Append(@, e)]
 
+\* a reply written to the client's socket; a client that has closed its end never reads it
+Write(h, c, rep) == IF cclosed[c] THEN h ELSE Emit(h, [Ev0 EXCEPT !.ev = "got", !.c = c, !.rep = rep])
+
 \* closeConn(client): the queue is dropped with the connection, messages are not recycled
 CloseClient(h, c, byProxy) ==
   LET h1 == [h EXCEPT !.copen[c] = FALSE, !.inq[c] = <<>>] IN
@@ -301,7 +304,7 @@ CbClientReadOne(c) ==
        \* cread: QUIT was seen, whatever follows is ignored
        /\ cbuf' = [cbuf EXCEPT ![c] = <<>>]
        /\ ready' = ready \ {<<"c", c>>}
-       /\ seen' = IF <<"c", c>> \in SeqRange(seen) THEN seen ELSE Append(seen, <<"c", c>>)
+       /\ seen' = IF <<"c", c, 0>> \in SeqRange(seen) THEN seen ELSE Append(seen, <<"c", c, 0>>)
        /\ UNCHANGED <<copen, closing, inq, msg, frag, outfq, infq, sopen, sgen, tasks, ttree, bq, b2p, bclosed, mon, out>>
      ELSE IF cbuf[c] # <<>> THEN
        LET i == Head(cbuf[c])[1]
@@ -313,10 +316,10 @@ CbClientReadOne(c) ==
                 h0 == [Heap EXCEPT !.msg[m] = m0]
             IN
             IF ~IsFwd(r) THEN
-              LET out == LocalRep(r)
+              LET lrep == LocalRep(r)
                   h1 == IF h0.inq[c] = <<>>
-                        THEN Emit([h0 EXCEPT !.msg[m] = PutReset(m0)], [Ev0 EXCEPT !.ev = "got", !.c = c, !.rep = out])
-                        ELSE [h0 EXCEPT !.msg[m] = [m0 EXCEPT !.done = TRUE, !.rsp = out], !.inq[c] = Append(@, m)]
+                        THEN Write([h0 EXCEPT !.msg[m] = PutReset(m0)], c, lrep)
+                        ELSE [h0 EXCEPT !.msg[m] = [m0 EXCEPT !.done = TRUE, !.rsp = lrep], !.inq[c] = Append(@, m)]
                   h2 == IF r.k # "quit" THEN h1
                         ELSE IF h1.inq[c] # <<>> THEN [h1 EXCEPT !.closing[c] = TRUE]
                         ELSE CloseClient(h1, c, TRUE)
@@ -330,20 +333,20 @@ CbClientReadOne(c) ==
                           ELSE \* rejected after some fragments may already be queued: mark them done
                             LET h1a == [h1 EXCEPT !.frag = [g \in DOMAIN h1.frag |->
                                                               IF g \in m0.frs THEN [h1.frag[g] EXCEPT !.done = TRUE] ELSE h1.frag[g]]]
-                                out == PErr("unknown slot")
+                                urep == PErr("unknown slot")
                             IN IF h1a.inq[c] = <<>>
-                               THEN Emit([h1a EXCEPT !.msg[m] = PutReset(m0)], [Ev0 EXCEPT !.ev = "got", !.c = c, !.rep = out])
-                               ELSE [h1a EXCEPT !.msg[m] = [m0 EXCEPT !.done = TRUE, !.rsp = out], !.inq[c] = Append(@, m)]
+                               THEN Write([h1a EXCEPT !.msg[m] = PutReset(m0)], c, urep)
+                               ELSE [h1a EXCEPT !.msg[m] = [m0 EXCEPT !.done = TRUE, !.rsp = urep], !.inq[c] = Append(@, m)]
                 IN /\ SetHeap(h2)
                    /\ cbuf' = [cbuf EXCEPT ![c] = Tail(@)]
-       /\ seen' = IF <<"c", c>> \in SeqRange(seen) THEN seen ELSE Append(seen, <<"c", c>>)
+       /\ seen' = IF <<"c", c, 0>> \in SeqRange(seen) THEN seen ELSE Append(seen, <<"c", c, 0>>)
        /\ ready' = IF copen'[c] /\ (cbuf'[c] # <<>> \/ (cclosed[c] /\ FALSE)) THEN ready ELSE ready \ {<<"c", c>>}
      ELSE
        \* read() returns 0: closeConn(c)
        /\ cclosed[c]
        /\ SetHeap(CloseClient(Heap, c, FALSE))
        /\ ready' = ready \ {<<"c", c>>}
-       /\ seen' = IF <<"c", c>> \in SeqRange(seen) THEN seen ELSE Append(seen, <<"c", c>>)
+       /\ seen' = IF <<"c", c, 0>> \in SeqRange(seen) THEN seen ELSE Append(seen, <<"c", c, 0>>)
        /\ UNCHANGED cbuf
   /\ UNCHANGED <<nsent, cclosed, expired, nclose, hops, phase, woke, halted, sched>>
 
@@ -390,7 +393,7 @@ SReadFrag(h, n, f, a) ==
     IF waiting THEN [h EXCEPT !.frag = one, !.msg[m] = mr0]
     ELSE [h EXCEPT !.frag = one,
                    !.msg[m] = [mr0 EXCEPT !.done = TRUE,
-                                 !.rsp = IF \A g \in mr0.frs : one[g].ans.kind = "ok" THEN Rep("ok", <<>>, 0, "")
+                                 !.rsp = IF \A g \in mr0.frs : one[g].ans.kind # "err" THEN Rep("ok", <<>>, 0, "")
                                          ELSE PErr("unknown error")]]
   ELSE \* single-key request: the reply passes through
     [h EXCEPT !.frag = one,
@@ -436,7 +439,7 @@ CbServerReadOne(n) ==
                                !.ttree = SelectSeq(h1.ttree, LAMBDA e : \A j \in 1..Len(infq[n]) : infq[n][j] # e)]
           IN SetHeap(h2)
        /\ ready' = ready \ {<<"s", n>>}
-  /\ seen' = IF <<"s", Conn(n)>> \in SeqRange(seen) THEN seen ELSE Append(seen, <<"s", Conn(n)>>)
+  /\ seen' = IF <<"s", n, sgen[n]>> \in SeqRange(seen) THEN seen ELSE Append(seen, <<"s", n, sgen[n]>>)
   /\ UNCHANGED <<nsent, cbuf, cclosed, expired, nclose, hops, phase, woke, halted, sched>>
 
 EndCallbacks ==
@@ -476,7 +479,7 @@ RunTasks ==
   /\ phase = "tasks"
   /\ SetHeap(RunAll(Heap))
   /\ phase' = "tmo" /\ woke' = FALSE
-  /\ seen' = Append(seen, <<"W", "">>)
+  /\ seen' = Append(seen, <<"W", "", 0>>)
   /\ UNCHANGED <<nsent, cbuf, cclosed, expired, nclose, hops, ready, halted, sched>>
 
 \* msgTimeout: scan the tree from the earliest deadline
@@ -503,7 +506,8 @@ TimeoutScan ==
      /\ ttree' = h.ttree /\ bq' = h.bq /\ b2p' = h.b2p /\ bclosed' = h.bclosed
      /\ out' = out \o h.evs
      /\ mon' = MonApply(Fold(mon, h.evs),
-                        [Ev0 EXCEPT !.ev = "iter", !.seen = [j \in DOMAIN seen |-> [k |-> seen[j][1], n |-> seen[j][2]]]])
+                        [Ev0 EXCEPT !.ev = "iter", !.seen = [j \in DOMAIN seen |-> IF seen[j][1] = "s" THEN [k |-> "s", n |-> <<seen[j][2], seen[j][3]>>]
+                                                                        ELSE [k |-> seen[j][1], n |-> seen[j][2]]]])
   /\ phase' = "poll"
   /\ UNCHANGED <<nsent, cbuf, cclosed, expired, nclose, hops, ready, woke, seen, halted, sched>>
 
